@@ -146,10 +146,18 @@ static std::string run_history(const Args& a, long i) {
     const int max_faces = (int)a.geti("max_faces", 640);
     // ---- start mesh and edge-length band ---------------------------------------------------------
     gen::TriMesh m; std::shared_ptr<epithelial_cell> c; auto ct = gen::default_cell_type(4, 0);
-    double scale = 1, lmin = 0, lmax = 0, ratio = 3; bool have = false;
+    double scale = 1, lmin = 0, lmax = 0, ratio = 3; bool have = false, lens = false;
     for (int attempt = 0; attempt < 30 && !have; attempt++) {
+        if (g.coin(0.06)) {
+            // 'lens6': 6 nodes, 8 faces; the needle ABC / ABD on the long edge AB has opposite nodes C, D that are already joined by an edge
+            // (3-cycles A-C-D and B-C-D are not faces), A and B have four faces each: the configuration in which an edge swap must be refused
+            double w = g.uni(0.05, 0.15), dz = g.uni(0.02, 0.08), cap = g.uni(0.4, 0.8), cx = g.uni(0.3, 0.7);
+            m = gen::TriMesh(); m.name = "lens6"; m.P = {{-1, 0, 0}, {1, 0, 0}, {0, w, -dz}, {0, -w, -dz}, {-cx, 0, -cap}, {cx, 0, -cap}};
+            m.T = {{0, 1, 2}, {0, 3, 1}, {0, 2, 4}, {2, 3, 4}, {3, 0, 4}, {1, 5, 2}, {2, 5, 3}, {3, 5, 1}}; lens = true;
+        } else { lens = false;
         m = gen::random_shape(g, std::max(20, max_faces / 2));
         if (g.coin(0.5)) gen::jitter(m, g, 0.05);
+        }
         scale = g.coin(0.5) ? 1.0 : g.logu(1e-6, 1e1);
         gen::scale(m, scale, scale, scale); gen::rotate(m, gen::rot_random(g));
         double off = g.coin(0.5) ? 0.0 : g.uni(0, 10) * scale; gen::translate(m, off * g.uni(-1, 1), off * g.uni(-1, 1), off * g.uni(-1, 1));
@@ -168,9 +176,12 @@ static std::string run_history(const Args& a, long i) {
         double cap = thick * 0.7 / 2.0; if (lmax > cap) { lmax = cap; lmin = lmax / ratio; }
         double expected_faces = (double)g0.area * 1.5 * 1.5 / (0.43 * std::pow(0.5 * (lmin + lmax), 2));   // at the largest stretch
         have = expected_faces <= 4.0 * max_faces;
+        if (lens) {   // focused probe: every edge inside the band (the thin body must not be remeshed away), only the swap rule is exercised
+            double emin = 1e300, emax = 0; for (auto& t : T) { V3 q[3] = {P[t.a], P[t.b], P[t.c]}; for (int k = 0; k < 3; k++) { double l = (double)(q[k] - q[(k + 1) % 3]).norm(); emin = std::min(emin, l); emax = std::max(emax, l); } }
+            lmin = 0.5 * emin; lmax = 2.0 * emax; ratio = lmax / lmin; have = true; }
     }
     if (!have) { cs.v = "skip"; cs.msg = "no shape within the face budget"; return cs.line(); }
-    bool swaps = g.coin(0.6);
+    bool swaps = g.coin(0.6) || lens;
     local_mesh_refiner lmr(lmin, lmax, swaps);
     // random labels and momenta
     for (face& f : cell_tester::faces(*c)) if (f.is_used()) f.set_face_type_id((unsigned short)g.range(0, 3));
@@ -183,7 +194,7 @@ static std::string run_history(const Args& a, long i) {
     if (a.geti("force_sample", 0) > 0) mon.sample_every = (int)a.geti("force_sample", 0);
     mon.regimeA = g.coin(0.5);
     g_mon = &mon; verif::get().remesh_event = sink;
-    const int npass = g.range(5, (int)a.geti("max_passes", 25));
+    const int npass = lens ? g.range(1, 3) : g.range(5, (int)a.geti("max_passes", 25));
     double D[3] = {1, 1, 1}; gen::Rot frame = gen::rot_random(g); double twist_state = 0;
     long passes_done = 0, conforming_checked = 0, rebases = 0, direct_ops = 0; bool threw = false; std::string throw_what;
     long faces_max = 0;
@@ -193,13 +204,13 @@ static std::string run_history(const Args& a, long i) {
         // ---- (a) deformation ----------------------------------------------------------------------
         {
             std::vector<V3> Q; std::vector<orc::Tri> TT; gen::extract(*c, Q, TT); orc::Geo gg = orc::geometry(Q, TT); V3 ctr = gg.centroid;
-            double Dn[3]; for (int d = 0; d < 3; d++) Dn[d] = g.coin(0.3) ? D[d] : g.uni(0.7, 1.5);
-            double tw = 0; if (g.coin(0.25)) { tw = (twist_state == 0 ? g.uni(-0.35, 0.35) : -twist_state); }
+            double Dn[3]; for (int d = 0; d < 3; d++) Dn[d] = (g.coin(0.3) || lens) ? D[d] : g.uni(0.7, 1.5);
+            double tw = 0; if (g.coin(0.25) && !lens) { tw = (twist_state == 0 ? g.uni(-0.35, 0.35) : -twist_state); }
             gen::Rot rr = (mon.regimeA && g.coin(0.4)) ? gen::rot_random(g) : gen::rot_identity();
             double ext = 0.5 * std::sqrt((double)std::max({(gg.hi[0] - gg.lo[0]) * (gg.hi[0] - gg.lo[0]), (gg.hi[1] - gg.lo[1]) * (gg.hi[1] - gg.lo[1]), (gg.hi[2] - gg.lo[2]) * (gg.hi[2] - gg.lo[2])}));
             // shortest incident edge per node for the noise bound
             std::vector<double> minl(Q.size(), 1e300); for (auto& t : TT) { unsigned v[3] = {t.a, t.b, t.c}; for (int k = 0; k < 3; k++) { double l = (double)(Q[v[k]] - Q[v[(k + 1) % 3]]).norm(); minl[v[k]] = std::min(minl[v[k]], l); minl[v[(k + 1) % 3]] = std::min(minl[v[(k + 1) % 3]], l); } }
-            double noise = g.coin(0.3) ? 0.0 : g.uni(0, 0.2);
+            double noise = lens ? g.uni(0, 0.02) : (g.coin(0.3) ? 0.0 : g.uni(0, 0.2));
             auto& nl = cell_tester::nodes(*c);
             // regime B emulates the product loop: the force phase refreshes the cached normals, then the integrator moves the
             // nodes, then the next refinement pass runs with normals that are one move stale.
@@ -242,7 +253,7 @@ static std::string run_history(const Args& a, long i) {
         // ---- (b) compaction -------------------------------------------------------------------------
         if (g.coin(0.25)) { try { c->rebase(); rebases++; before_tri.clear(); before_used.clear(); } catch (const std::exception& e) { mon.viol("c01.rebase_threw", e.what()); break; } mon.full_check("rebase", true); }
         // ---- (c) burst of direct operations ---------------------------------------------------------
-        if (g.coin(0.25) && mon.viol_key.empty()) {
+        if (g.coin(0.25) && mon.viol_key.empty() && !lens) {
             int nops = g.range(1, 10); edge_set dummy;
             for (int k = 0; k < nops && mon.viol_key.empty(); k++) {
                 const auto& es = cell_tester::edges(*c); if (es.empty()) break;
@@ -252,7 +263,8 @@ static std::string run_history(const Args& a, long i) {
                     else if (what == 1) { if (lmr.can_be_merged(e, c)) { dummy.clear(); lmr.merge_edge(e, c, dummy); } }
                     else { lmr.swap_edge(e, c); if (mon.pend_swap) { mon.n_swap_refused++; mon.pend_swap = false; } }
                     direct_ops++;
-                } catch (const std::exception& ex) { threw = true; throw_what = std::string("direct op: ") + ex.what(); break; }
+                } catch (const std::exception& ex) { threw = true; throw_what = std::string("direct op: ") + ex.what();
+                    if (mon.oracle_c01) mon.viol(std::string("c01.operation_refused_by_mesh_structure@direct_") + (what == 0 ? "split" : what == 1 ? "merge" : "swap"), std::string("a direct split / guarded merge / swap on a valid mesh ended with an exception of the mesh structure: ") + ex.what()); break; }
                 mon.full_check("direct_op", true);
             }
             before_tri.clear(); before_used.clear();   // direct ops touched faces: only regime A judges normals afterwards
@@ -274,7 +286,11 @@ static std::string run_history(const Args& a, long i) {
         catch (const std::exception& ex) { threw = true; throw_what = ex.what(); }
         mon.n_pass++;
         if (mon.pend_swap) { mon.n_swap_refused++; mon.pend_swap = false; }
-        if (threw) break;                       // allowed outcome: the state after an exception is not judged
+        // A pass may give up with its documented failure ("The refinement of the mesh of cell N failed ..."): allowed outcome, the state after
+        // it is not judged.  Any other exception comes from the mesh structure refusing an operation (third face on an edge, face missing from
+        // an edge): the pass tried to build a non-manifold configuration on a valid input mesh, which is what C01 forbids.
+        if (threw && mon.oracle_c01 && throw_what.find("The refinement of the mesh of cell") != 0) { std::string sl; for (char ch : throw_what) { if (std::isalpha((unsigned char)ch)) sl += ch; else if (ch == ' ' && !sl.empty() && sl.back() != '_') sl += '_'; if (sl.size() >= 40) break; } mon.viol("c01.operation_refused_by_mesh_structure@pass:" + sl, "a refinement pass on a valid mesh ended with an exception of the mesh structure: " + throw_what); }
+        if (threw) break;
         faces_max = std::max(faces_max, cell_faces());
         if (mon.oracle_c01 && mon.viol_key.empty()) {
             mon.inv_checks++;
@@ -329,7 +345,8 @@ static int cmd_remesh(const Args& a) {
             if (skip) { agg.skipped++; agg.bin("skipped_generator_reject"); continue; }
             agg.bin("splits", num("splits")); agg.bin("merges", num("merges")); agg.bin("swaps_done", num("swaps_done")); agg.bin("swaps_refused", num("swaps_refused")); agg.bin("merges_refused", num("merges_refused"));
             agg.bin("passes", num("passes")); agg.bin("rebases", num("rebases")); agg.bin("direct_ops", num("direct_ops")); agg.bin("invariant_checks", num("invariant_checks")); agg.bin("conforming_checked", num("conforming_checked"));
-            if (flag("threw")) agg.bin("histories_ended_by_exception"); if (flag("regimeA")) agg.bin("regimeA_histories"); else agg.bin("regimeB_histories"); if (flag("swaps")) agg.bin("histories_with_swaps_enabled");
+            { size_t p = L.find("\"shape\":\""); if (p != std::string::npos) { std::string w = L.substr(p + 9, 24), sl; for (char ch : w) { if (ch == '"') break; if (!std::isdigit((unsigned char)ch)) sl += ch; } agg.bin("shape:" + sl); } }
+            if (flag("threw")) { agg.bin("histories_ended_by_exception"); size_t p = L.find("\"throw_what\":\""); if (p != std::string::npos) { std::string w = L.substr(p + 14, 60), sl; for (char ch : w) { if (ch == '"') break; if (std::isalpha((unsigned char)ch)) sl += ch; else if (ch == ' ' && !sl.empty() && sl.back() != '_') sl += '_'; } agg.bin("exception:" + sl.substr(0, 48)); } } if (flag("regimeA")) agg.bin("regimeA_histories"); else agg.bin("regimeB_histories"); if (flag("swaps")) agg.bin("histories_with_swaps_enabled");
             agg.maxi("faces_max", (double)num("faces_max"));
             if (flag("nt")) { agg.nontrivial++; size_t p = L.find("\"sig\":\""); if (p != std::string::npos) agg.sigs[strtoull(L.substr(p + 7, 16).c_str(), nullptr, 16)] = 1; }
             if (viol) { agg.viol_total++; if (agg.viol_total <= (long)agg.max_viol) emit(L); }
